@@ -85,6 +85,12 @@ type Params struct {
 	CapacitySat int64 `json:"capacity_sat,omitempty"`
 	GrossA      int64 `json:"gross_a,omitempty"`
 	ReserveSat  int64 `json:"reserve_sat,omitempty"`
+	// ProbeLiveReest adds the terminal action `probe>X` wherever X's wire head is
+	// a commitment_signed: X runs ReceiveNewCommitment only and then answers the
+	// peer's channel_reestablish on the LIVE object (no reload). lnd's link never
+	// does this, but the API allows it, and it is the one instant at which the
+	// in-memory commitment chain is ahead of the durable one (C06 release rule).
+	ProbeLiveReest bool `json:"probe_live_reest,omitempty"`
 	// CutOnlyInSync restricts second and later cuts to states where
 	// resynchronisation is still in progress (quick tier of C02/C03).
 	CutOnlyInSync bool `json:"cut_only_in_sync"`
@@ -219,6 +225,7 @@ type World struct {
 	dir       string
 	sendSeq   int
 	closed    bool
+	dead      bool // a terminal probe consumed this world
 	// Hooks for other properties riding on the same exploration.
 	Hooks Hooks
 	// counters
@@ -595,6 +602,9 @@ func sigErr(err error) bool {
 // Enabled lists enabled actions; index 0 is the eager default.
 func (w *World) Enabled() []string {
 	var acts []string
+	if w.dead {
+		return nil
+	}
 	for i := 0; i < 2; i++ {
 		if len(w.wire[i]) > 0 {
 			acts = append(acts, "dl>"+w.pt[i].name)
@@ -637,6 +647,13 @@ func (w *World) Enabled() []string {
 			}
 		}
 	}
+	if w.P.ProbeLiveReest {
+		for i := 0; i < 2; i++ {
+			if len(w.wire[i]) > 0 && w.wire[i][0].kind == "sig" && !w.pt[i].needSync && !w.pt[1-i].needSync {
+				acts = append(acts, "probe>"+w.pt[i].name)
+			}
+		}
+	}
 	if w.P.CrashPoints && w.cuts < w.P.MaxCuts {
 		// A step that performs W>=2 durable writes has W-1 interior crash
 		// points (k=0 and k=W coincide with a cut before/after the step).
@@ -663,6 +680,9 @@ func (w *World) Enabled() []string {
 
 // Terminal checks liveness and the mirror property when nothing is enabled.
 func (w *World) Terminal() {
+	if w.dead {
+		return
+	}
 	for k, h := range w.h {
 		if h.refused {
 			continue
@@ -687,7 +707,7 @@ func (w *World) Terminal() {
 // Do performs one action.
 func (w *World) Do(a string) error {
 	kind := ""
-	if a != "cut" && !strings.HasPrefix(a, "crash") {
+	if a != "cut" && !strings.HasPrefix(a, "crash") && !strings.HasPrefix(a, "probe>") {
 		kind = w.kindOf(a)
 	}
 	w.hist = append(w.hist, a)
@@ -698,6 +718,8 @@ func (w *World) Do(a string) error {
 		err = w.cut()
 	case strings.HasPrefix(a, "dl>"):
 		err = w.deliver(int(a[3] - 'A'))
+	case strings.HasPrefix(a, "probe>"):
+		err = w.probeLiveReest(int(a[6] - 'A'))
 	case strings.HasPrefix(a, "crash"):
 		// crash<k>:<X>:<inner action>: party X's k-th durable write from now
 		// succeeds, every later one fails; then both sides reconnect.
@@ -1040,7 +1062,7 @@ func (w *World) Key() string {
 			fmt.Fprintf(&b, " p%d%d", b2i(h.addRestored), b2i(h.resRestored))
 		}
 	}
-	fmt.Fprintf(&b, " f%d/%d c%d r%v", w.feeSent, w.feeSigned, w.cuts, w.feeRestored)
+	fmt.Fprintf(&b, " f%d/%d c%d r%v d%v", w.feeSent, w.feeSigned, w.cuts, w.feeRestored, w.dead)
 	return b.String()
 }
 
